@@ -237,6 +237,35 @@ pub fn run(ctx: &mut Ctx) {
     });
     ctx.require(&r, &["whole_days", "fractional_days"]);
 
+    // 5'. the 'now' constructor and the time-of-day conversion under injected clocks with sub-second parts
+    {
+        use sqldatetime::verif_hooks::set_now;
+        use std::convert::TryFrom;
+        let mut clocks: Vec<(i32, u32, u32, i64)> = Vec::new();
+        for (y, m, d) in [(1, 1, 1), (1583, 10, 15), (1969, 12, 31), (1970, 1, 1), (2000, 2, 29), (2024, 2, 29), (9999, 12, 31)] {
+            for s in [0i64, 1, 59, 3_599, 43_200, 86_399] {
+                for us in [0i64, 1, 499_999, 500_000, 999_999] { clocks.push((y, m, d, s * US_SEC + us)); }
+            }
+        }
+        let clocks = &clocks;
+        let r = ctx.sweep_each("now_and_time_conversion_under_injected_clocks", "7 clock dates x 6 seconds of the day x 5 sub-second parts: OracleDate::now() and OracleDate::try_from(Time) are whole seconds in range, equal to the clock floored to its second", clocks.len() as u64, 8, |idx, acc| {
+            let (y, m, d, tod) = clocks[idx as usize];
+            let day = cal.day_number(y, m, d) as i64;
+            set_now(Some(crate::c18::clock(y, m, d, tod)));
+            acc.states += 1;
+            acc.t(2);
+            acc.traces += 1;
+            let got = guard(|| (OracleDate::now().map(|o| o.usecs()).ok(), OracleDate::try_from(sqldatetime::Time::try_from_usecs(3_723_000_004).unwrap()).map(|o| o.usecs()).ok()));
+            set_now(None);
+            let want = (Some(day * US_DAY + tod / US_SEC * US_SEC), Some(day * US_DAY + 3_723_000_000));
+            if tod % US_SEC != 0 { acc.cls("clock_with_sub_second_part"); acc.nontrivial += 1; } else { acc.cls("clock_on_a_whole_second"); }
+            if got != Ok(want) {
+                acc.fail("C16:OracleDate:now-or-time-conversion:not-the-clock-floored-to-the-second", idx, || (format!("clock = {y:04}-{m:02}-{d:02} {}; (OracleDate::now(), OracleDate::try_from(Time 01:02:03.000004))", fmt_time(tod)), format!("{want:?}"), format!("{got:?}"), String::new()));
+            }
+        });
+        ctx.require(&r, &["clock_with_sub_second_part", "clock_on_a_whole_second"]);
+    }
+
     // 6. raw constructor
     let mut raws: Vec<i64> = Vec::new();
     for &o in ods.iter() { for d in [0i64, 1, -1, 500_000, 999_999, -999_999, US_SEC] { raws.push(o.saturating_add(d)); } }
